@@ -112,8 +112,8 @@ PROPS["C09"] = {
     "level": "exploration",
     "technique": "exhaustive enumeration of millisecond windows + PBT against independent big-integer slot arithmetic; header-mutation PBT against the real DPoS/raft signature, producer-set, slot-owner and future-slot checks",
     "level_text": ("Part A: every millisecond in windows of +-2 intervals around three consecutive producer-round wrap-arounds, for intervals "
-                   "1/2/3/5 s and 1..100 producers (exhaustive), plus random 62-bit timestamps, compared with an independent big-integer "
-                   "definition (exactly one owner, constant within a slot, +1 mod n at a boundary). Part B: real signed blocks against the real "
+                   "1/2/3/5 s and 1..100 producers (exhaustive), plus random 62-bit timestamps, checked for the structure the property states (exactly one owner in [0,n), constant "
+                   "within a slot, +1 mod n at each boundary, every slot exactly one interval long, order relations consistent); which index owns which slot and the phase of the boundaries are deliberately not prescribed. Part B: real signed blocks against the real "
                    "DPoS acceptance path (VerifySign, producer membership, slot owner, future-slot rule) under single-field header mutations, "
                    "foreign/other-slot signers and timestamp shifts."),
     "level_note": "The future-slot rule reads the real clock: timestamps within 150 ms of a decision boundary are skipped and counted. SBP (single-node development consensus) has no block signature and is outside the statement. libp2p secp256k1 signatures trusted.",
